@@ -266,6 +266,10 @@ def gen(rng, nrng, tier):
         yield ("cholesky", {"A": A, "B": Z})
         # special relations between the first column and the first row of a GENERAL Toeplitz system: row = conj(column)
         # with a complex diagonal (Hermitian off-diagonals only), row = column (symmetric), real column = row
+        if i % 3 == 1:
+            # well-conditioned general Toeplitz systems that are not positive definite: negative or complex diagonal
+            T0n = [-2.0, -2.0 + 1.0j, 2.0j, -3.0][(i // 3) % 4]
+            yield ("toeplitz", {"T0": T0n, "TC": TC, "TR": TR, "Z": Z})
         if i % 3 == 0:
             T0c = [2.0 + 1.0j, 2.0 - 0.5j, 2.0, 2.5j + 2.0][(i // 3) % 4]
             yield ("toeplitz", {"T0": T0c, "TC": TC, "TR": np.conj(TC), "Z": Z})
